@@ -9,7 +9,7 @@ from __future__ import annotations
 from ..model import AnalysisError
 from .. import specs
 
-OPTS = dict(inline_depth=0, keep_raises=True, track_locals=True, track_effects=True, erase_validation=True, erase_persistence=True, inline_new=2)
+OPTS = dict(inline_depth=0, keep_raises=True, track_locals=True, track_effects=True, erase_validation=True, erase_persistence=True, inline_new=2, bind_args=True)
 
 TABLES = {
     "push": ("push = initialise absent storage like the observation (its dtype only when the storage is untyped), write at offset 0, advance by one", """
